@@ -249,6 +249,7 @@ func (ex *Exec) cellByte(st *State, o *Object, off int64) *smt.Expr {
 }
 
 func (ex *Exec) storeCells(st *State, o *Object, off int64, v Val, t *llread.Type) {
+	o.Writes++
 	n := storeSize(t)
 	e := v.E
 	if t.Kind == llread.TInt && t.Bits%8 != 0 {
@@ -383,6 +384,7 @@ func (ex *Exec) Store(st *State, p Val, v Val, t *llread.Type, what string) bool
 	}
 	o = st.wobj(o.ID)
 	if o.CSize < 0 {
+		o.Writes++
 		bits := ex.bitsOf(v, int(n))
 		for k := int64(0); k < n; k++ {
 			o.Arr = c.Store(o.Arr, c.Add(off, c.BV(64, uint64(k))), c.Extract(bits, int(8*k+7), int(8*k)))
@@ -480,6 +482,7 @@ func (ex *Exec) copyBytes(st *State, dst, src Val, n int64, what string) bool {
 		tmp := make([]Cell, n)
 		copy(tmp, so.Cells[sk:sk+n])
 		w := st.wobj(do.ID)
+		w.Writes++
 		copy(w.Cells[dk:dk+n], tmp)
 		// partial copies of multi-byte values stay valid: cells are self-describing
 		return true
